@@ -1,4 +1,4 @@
-\* quick tier: repaired variant (/tx holder check, re-entrant unset), every clause of C13 is an invariant
+\* the primary's application may unlink the database (LDrop) - repaired variant (/tx holder check, re-entrant unset), every clause of C13 is an invariant
 SPECIFICATION Spec
 CONSTANTS
   TxHolderCheck = TRUE
@@ -8,8 +8,8 @@ CONSTANTS
   IdemCheck = TRUE
   WaitPos = TRUE
   FwdFirst = TRUE
-  MaxDrop = 0
-  DropExcluded = TRUE
+  MaxDrop = 1
+  DropExcluded = FALSE
   ExpiryUnlocks = TRUE
   MaxTx = 3
   MaxFaults = 1
@@ -19,7 +19,7 @@ CONSTANTS
   MaxRogue = 1
   MaxBlock = 0
   MaxCkpt = 0
-  MaxIdle = 0
+  MaxIdle = 1
   MaxSteps = 0
   Eager = FALSE
   Emit = "none"
